@@ -8,7 +8,7 @@ def run(ctx):
     q = ctx.quick()
     base = []
     for fam in swcorpus.FAMS:
-        p, n = swcorpus.gen(ctx, fam, "{7}" if q else "{7, 2000}")
+        p, n = swcorpus.gen(ctx, fam, "{7}" if q else "{7, 2000, 61}")
         for r in vlib.read_ndjson(p):
             base.append(dict(id=r["id"], entry="Parse", kind=r["kind"], frame=r["frame"]))
     if q:
@@ -26,7 +26,7 @@ def run(ctx):
         if q and r["kind"] not in ("flowstats", "flowstats-instr", "hello", "flowmod"):
             continue
         base.append(dict(id=r["id"], entry="Parse", kind=r["kind"], frame=r["frame"], win=[24, 64] if q else r["win"]))
-    sp, nb, nm = totality.mutate(ctx, base, "of", depth2=not q, maxlen=480 if q else 1200)
+    sp, nb, nm = totality.mutate(ctx, base, "of", depth2=not q, maxlen=480 if q else 2000)
     tr, recs = totality.run(ctx, sp, "of")
     ctx.extra.update(base_frames=nb, mutants=nm, distinct_nontrivial=nm)
     ctx.judged = nm
